@@ -48,8 +48,14 @@ type sysDef struct {
 func systems() []sysDef {
 	return []sysDef{
 		{"NPM", func(r *rand.Rand) *uni.Universe {
-			if r.Intn(4) == 0 {
+			switch r.Intn(8) {
+			case 0, 1:
 				return c06.GenerateStratum(r, c06.Bundle)
+			case 2:
+				// Aliases that take the names of real packages, names that
+				// differ in letter case only: where a look-up by name could
+				// find more than one thing, the answer must still be one.
+				return c06.GenerateStratum(r, c06.Collision)
 			}
 			return c06.GenerateStratum(r, c06.Base)
 		}, npm.NewResolver, true},
